@@ -17,6 +17,25 @@ from vlib.asts import rows_of
 INT_EXT = "arithmetic.int.types"
 FLOAT_EXT = "arithmetic.float.types"
 
+_STD_DESC: dict = {}
+
+
+def std_description(ext: str, op: str) -> str:
+    """Description of a standard-extension op, read from the specification's extension files."""
+    import json
+    import os
+
+    if not _STD_DESC:
+        root = os.path.join(os.environ.get("VERIF_REPO", "/repo"), "specification", "std_extensions")
+        for dirpath, _, files in os.walk(root):
+            for fn in files:
+                if fn.endswith(".json"):
+                    with open(os.path.join(dirpath, fn)) as f:
+                        d = json.load(f)
+                    for k, v in d["operations"].items():
+                        _STD_DESC[(d["name"], k)] = v.get("description", "")
+    return _STD_DESC.get((ext, op), "")
+
 
 # ------------------------------------------------------------------ params / args
 
@@ -430,18 +449,18 @@ def enc_op(op, parent=0):
         return dict(base, op="Extension", extension=op["ext"], name=op["name"], signature=_sig(op["i"], op["o"], op.get("reqs", [])), description=op.get("desc", ""), args=[enc_arg(a) for a in op.get("args", [])])
     if k == "MakeTuple":
         seq = {"tya": "Sequence", "elems": [{"tya": "Type", "ty": enc_type(t)} for t in op["ts"]]}
-        return dict(base, op="Extension", extension="prelude", name="MakeTuple", signature=_sig(op["ts"], [{"k": "tuple", "ts": op["ts"]}], ["prelude"]), description="", args=[seq])
+        return dict(base, op="Extension", extension="prelude", name="MakeTuple", signature=_sig(op["ts"], [{"k": "tuple", "ts": op["ts"]}], ["prelude"]), description=std_description("prelude", "MakeTuple"), args=[seq])
     if k == "UnpackTuple":
         seq = {"tya": "Sequence", "elems": [{"tya": "Type", "ty": enc_type(t)} for t in op["ts"]]}
-        return dict(base, op="Extension", extension="prelude", name="UnpackTuple", signature=_sig([{"k": "tuple", "ts": op["ts"]}], op["ts"], ["prelude"]), description="", args=[seq])
+        return dict(base, op="Extension", extension="prelude", name="UnpackTuple", signature=_sig([{"k": "tuple", "ts": op["ts"]}], op["ts"], ["prelude"]), description=std_description("prelude", "UnpackTuple"), args=[seq])
     if k == "Noop":
-        return dict(base, op="Extension", extension="prelude", name="Noop", signature=_sig([op["t"]], [op["t"]], ["prelude"]), description="", args=[{"tya": "Type", "ty": enc_type(op["t"])}])
+        return dict(base, op="Extension", extension="prelude", name="Noop", signature=_sig([op["t"]], [op["t"]], ["prelude"]), description=std_description("prelude", "Noop"), args=[{"tya": "Type", "ty": enc_type(op["t"])}])
     if k == "Not":
         b = {"k": "bool"}
-        return dict(base, op="Extension", extension="logic", name="Not", signature=_sig([b], [b], ["logic"]), description="", args=[])
+        return dict(base, op="Extension", extension="logic", name="Not", signature=_sig([b], [b], ["logic"]), description=std_description("logic", "Not"), args=[])
     if k == "DivMod":
         t = {"k": "int", "w": op["w"]}
-        return dict(base, op="Extension", extension="arithmetic.int", name="idivmod_u", signature=_sig([t, t], [t, t], ["arithmetic.int"]), description="", args=[{"tya": "BoundedNat", "n": op["w"]}])
+        return dict(base, op="Extension", extension="arithmetic.int", name="idivmod_u", signature=_sig([t, t], [t, t], ["arithmetic.int"]), description=std_description("arithmetic.int", "idivmod_u"), args=[{"tya": "BoundedNat", "n": op["w"]}])
     raise ValueError(k)
 
 
